@@ -11,6 +11,7 @@ import (
 	"fmt"
 	"log/slog"
 	"net"
+	"net/http"
 	"os"
 	"path/filepath"
 	"regexp"
@@ -176,6 +177,8 @@ type sim struct {
 	probes     map[string]int64
 	nontrivial bool
 	logBuf     *lockedBuf
+	holdC      bool // hold handlers at the first write of a /c answer
+	wparks     []*wpark
 }
 
 type lockedBuf struct {
@@ -243,9 +246,82 @@ func probeHost() {
 	})
 }
 
+var (
+	curMu    sync.Mutex
+	curSim   *sim
+	hookOnce sync.Once
+)
+
+// parkWriter is the response writer the handlers see: the simulator can hold a
+// handler at its first write of a /c answer, as a slow client would, so that
+// requests overlap.
+type parkWriter struct {
+	http.ResponseWriter
+	s      *sim
+	path   string
+	remote string
+	parked bool
+}
+
+func (p *parkWriter) Write(b []byte) (int, error) {
+	if !p.parked {
+		p.parked = true
+		p.s.maybeParkWrite(p)
+	}
+	return p.ResponseWriter.Write(b)
+}
+func (p *parkWriter) Unwrap() http.ResponseWriter { return p.ResponseWriter }
+func (p *parkWriter) Flush() {
+	if f, ok := p.ResponseWriter.(http.Flusher); ok {
+		f.Flush()
+	}
+}
+func (p *parkWriter) FlushError() error {
+	if f, ok := p.ResponseWriter.(interface{ FlushError() error }); ok {
+		return f.FlushError()
+	}
+	p.Flush()
+	return nil
+}
+
+type wpark struct {
+	remote string
+	ch     chan struct{}
+}
+
+func (s *sim) maybeParkWrite(p *parkWriter) {
+	s.mu.Lock()
+	if !s.holdC || p.path != "/c" {
+		s.mu.Unlock()
+		return
+	}
+	w := &wpark{remote: p.remote, ch: make(chan struct{})}
+	s.wparks = append(s.wparks, w)
+	s.mu.Unlock()
+	<-w.ch
+}
+
+func installServerHook() {
+	hookOnce.Do(func() {
+		hsrv.VerifServerHook = func(hs *http.Server) {
+			curMu.Lock()
+			s := curSim
+			curMu.Unlock()
+			if s == nil {
+				return
+			}
+			inner := hs.Handler
+			hs.Handler = http.HandlerFunc(func(w http.ResponseWriter, r *http.Request) {
+				inner.ServeHTTP(&parkWriter{ResponseWriter: w, s: s, path: r.URL.Path, remote: r.RemoteAddr}, r)
+			})
+		}
+	})
+}
+
 // Run implements simkit.Engine.
 func (Engine) Run(t *testing.T, job *simkit.Job, rng *simkit.RNG, idx int64, c *simkit.Case) *simkit.Outcome {
 	probeHost()
+	installServerHook()
 	s := &sim{rng: rng, job: job, faults: map[string]int64{}, probes: map[string]int64{}, ids: map[string]bool{}, tmplState: "none"}
 	if c != nil {
 		s.replay = true
@@ -277,6 +353,9 @@ func (Engine) Run(t *testing.T, job *simkit.Job, rng *simkit.RNG, idx int64, c *
 	s.filesDir = filepath.Join(s.dir, "files")
 	_ = os.MkdirAll(s.filesDir, 0o700)
 	_ = os.WriteFile(filepath.Join(s.filesDir, "hello.txt"), []byte("hello\n"), 0o600)
+	curMu.Lock()
+	curSim = s
+	curMu.Unlock()
 	func() {
 		defer func() {
 			if r := recover(); r != nil {
@@ -287,6 +366,9 @@ func (Engine) Run(t *testing.T, job *simkit.Job, rng *simkit.RNG, idx int64, c *
 		}()
 		synctest.Test(t, func(*testing.T) { s.main() })
 	}()
+	curMu.Lock()
+	curSim = nil
+	curMu.Unlock()
 	o := &simkit.Outcome{Invalid: s.invalid, Steps: int64(s.step), SimNanos: s.simNanos(), Faults: s.faults, Probes: s.probes,
 		NonTrivial: s.nontrivial, Violations: s.found, Trace: s.trace, HarnessErr: s.harnessErr}
 	cb, _ := json.Marshal(s.cfg)
